@@ -34,7 +34,7 @@ class C10(P.Property):
     assumptions = ["connections are consecutive, never overlapping (overlap is C12)",
                    "tokens under the other key are valid messages and must produce an empty result"]
     probe_names = ["forced_reconnect", "reconnect_inside_cleanup", "abort_reconnect", "second_config_refused", "second_upload_refused",
-                   "search_before_ready_refused", "foreign_sid_ignored", "unknown_type", "search_other_key", "search_absent_keyword", "decoy_service"]
+                   "search_before_ready_refused", "foreign_sid_ignored", "unknown_type", "search_other_key", "search_absent_keyword", "decoy_service", "pipelined_pair", "ack_lost_behind_refused_pipelined_request"]
     exhaustive = False
 
     def setup(self):
@@ -67,12 +67,17 @@ class C10(P.Property):
         enabled = [k for k in kinds if rng.random() < 0.8] or ["config", "upload", "search"]
         for _ in range(rng.randint(3, 14)):
             k = rng.choice(enabled)
-            if k == "config":
-                steps.append({"do": k, "c": rng.randint(0, 1)})
-            elif k == "upload":
-                steps.append({"do": k, "e": rng.randint(0, 1)})
-            elif k == "search":
-                steps.append({"do": k, "key": rng.randint(0, 1), "w": rng.choice(WORDS)})
+            if k in ("config", "upload", "search"):
+                def mk(kind):
+                    if kind == "config":
+                        return {"do": kind, "c": rng.randint(0, 1)}
+                    if kind == "upload":
+                        return {"do": kind, "e": rng.randint(0, 1)}
+                    return {"do": kind, "key": rng.randint(0, 1), "w": rng.choice(WORDS)}
+                st_ = mk(k)
+                if rng.random() < 0.25:
+                    st_["burst"] = mk(rng.choice(["config", "upload", "upload", "search"]))
+                steps.append(st_)
             elif k == "reconnect":
                 steps.append({"do": k, "gap": rng.choice([0, 0.5, 1.5]), "abort": rng.random() < 0.3})
             elif k == "foreign":
@@ -241,66 +246,98 @@ class C10(P.Property):
                 out["cover"][f"s{st}:unknown:{'closed' if a.closed_seen else 'ignored'}"] = 1
                 accepted_expected = None
             else:
-                if do == "config":
-                    await a.send("config", pickle.dumps(C[step["c"]]))
-                    exp = (st == 0)
-                elif do == "upload":
-                    await a.send("upload_edb", E[step["e"]])
-                    exp = (st == 1)
-                else:
-                    await a.send("token", T[(step["key"], step["w"])], token_digest=b"d%d" % si)
-                    exp = (st == 2)
-                await a.wait_change(lambda: (len(a.acks), len(a.refused), len(a.results)) != (nack, nref, nres), 30)
-                ok_reply = len(a.acks) > nack or len(a.results) > nres
-                form = "ok" if ok_reply else "refused-msg" if len(a.refused) > nref else "refused-closed" if a.closed_seen else "silent"
-                out["obs"].append((st, do, form))
-                out["cover"][f"s{st}:{do}:{form}"] = 1
-                if ok_reply != exp:
-                    viol.append(V("C10.step", "REFUSAL_MISMATCH", f"step {si}: {do} in model state {st}: server answered '{form}', reference model says "
-                                                              f"{'accepted' if exp else 'refused'}", site=do))
-                    return
-                if ok_reply:
-                    if do == "config":
-                        if a.acks[-1] != "config":
-                            viol.append(V("C10.step", "REFUSAL_MISMATCH", f"step {si}: config answered by {a.acks[-1]}"))
-                            return
-                        st, cfg = 1, step["c"]
-                        with open(run.sse_path(SID, "config.json"), "rb") as f:
-                            run.accepted_files["config.json"] = f.read()
-                    elif do == "upload":
-                        if a.acks[-1] != "upload_edb":
-                            viol.append(V("C10.step", "REFUSAL_MISMATCH", f"step {si}: upload answered by {a.acks[-1]}"))
-                            return
-                        st, edb = 2, step["e"]
-                        with open(run.sse_path(SID, "edb"), "rb") as f:
-                            run.accepted_files["edb"] = f.read()
+                async def send(m, tag):
+                    if m["do"] == "config":
+                        await a.send("config", pickle.dumps(C[m["c"]]))
+                    elif m["do"] == "upload":
+                        await a.send("upload_edb", E[m["e"]])
                     else:
-                        if len(a.results) <= nres:
-                            viol.append(V("C10.step", "REFUSAL_MISMATCH", f"step {si}: search answered by an acknowledgement"))
+                        await a.send("token", T[(m["key"], m["w"])], token_digest=b"d%d%s" % (si, tag))
+
+                def accepts(m):
+                    return (st == 0) if m["do"] == "config" else (st == 1) if m["do"] == "upload" else (st == 2)
+                msgs = [step]
+                burst = step.get("burst")
+                if burst and accepts(step):
+                    # pipelining: the next message is sent without waiting for the reply to this one (only behind a message the
+                    # model accepts: a refused one makes the server drop the connection and whatever is queued on it)
+                    msgs.append(burst)
+                    probes["pipelined_pair"] = 1
+                base = len(a.replies)
+                for mi, m in enumerate(msgs):
+                    await send(m, b"ab"[mi:mi + 1])
+                for mi, m in enumerate(msgs):
+                    mdo = m["do"]
+                    exp = accepts(m)
+                    await a.wait_change(lambda: len(a.replies) > base + mi, 30)
+                    rep = a.replies[base + mi] if len(a.replies) > base + mi else None
+                    ok_reply = rep is not None and rep[0] in ("ack", "result")
+                    form = "ok" if ok_reply else "refused-msg" if rep is not None else "refused-closed" if a.closed_seen else "silent"
+                    out["obs"].append((st, mdo + ("+" if mi else ""), form))
+                    out["cover"][f"s{st}:{mdo}{'(pipelined)' if mi else ''}:{form}"] = 1
+                    if (not ok_reply and exp and mi == 0 and len(msgs) == 2 and rep is None and a.closed_seen
+                            and not self._accepts_after(msgs[0], msgs[1], st)):
+                        # the acknowledgement of an accepted request is lost when a refused request is pipelined right behind it
+                        # (the server drops the connection before the queued reply leaves): applied but unacknowledged, which the
+                        # property allows -- the state check at the next connection decides whether it really was applied
+                        probes["ack_lost_behind_refused_pipelined_request"] = 1
+                        ok_reply = True
+                        rep = ("ack", {"config": "config", "upload": "upload_edb"}.get(mdo)) if mdo != "search" else None
+                        if rep is None:
+                            break
+                    if ok_reply != exp:
+                        viol.append(V("C10.step", "REFUSAL_MISMATCH", f"step {si}{' (pipelined second message)' if mi else ''}: {mdo} in model state {st}: server answered "
+                                                                  f"'{form}', reference model says {'accepted' if exp else 'refused'}", site=mdo))
+                        return
+                    if ok_reply:
+                        want_kind = {"config": ("ack", "config"), "upload": ("ack", "upload_edb")}.get(mdo)
+                        if want_kind is not None and rep != want_kind:
+                            viol.append(V("C10.step", "REFUSAL_MISMATCH", f"step {si}: {mdo} answered by {rep[:2]}"))
                             return
-                        try:
-                            got = fe.result_list(L, w["cfgobj"], a.results[-1])
-                        except Exception as e:
-                            viol.append(V("C10.search", "WRONG_RESULT", f"step {si}: result not decodable: {e!r}"))
-                            return
-                        wd = step["w"].encode()
-                        want = DB[edb].get(wd, []) if step["key"] == edb else []
-                        if step["key"] != edb:
-                            probes["search_other_key"] = 1
-                        if wd not in DB[edb]:
-                            probes["search_absent_keyword"] = 1
-                        same = (set(got) == set(want) and len(got) == len(want)) if isinstance(got, (set, frozenset)) else (list(got) == want)
-                        if not same:
-                            viol.append(V("C10.search", "WRONG_RESULT", f"step {si}: search(key{step['key']},{step['w']}) on accepted index e{edb} returned "
-                                                                        f"{len(got)} ids, expected {len(want)} (ids differ)", site="search"))
-                            return
-                else:
-                    if do == "config":
-                        probes["second_config_refused"] = 1
-                    elif do == "upload" and st == 2:
-                        probes["second_upload_refused"] = 1
-                    elif do == "search":
-                        probes["search_before_ready_refused"] = 1
+                        if mdo == "config":
+                            st, cfg = 1, m["c"]
+                            try:
+                                with open(run.sse_path(SID, "config.json"), "rb") as f:
+                                    run.accepted_files["config.json"] = f.read()
+                            except FileNotFoundError:
+                                viol.append(V("C10.step", "STATE_MISMATCH", f"step {si}: {mdo} was accepted but no config.json is stored", site=mdo))
+                                return
+                        elif mdo == "upload":
+                            st, edb = 2, m["e"]
+                            try:
+                                with open(run.sse_path(SID, "edb"), "rb") as f:
+                                    run.accepted_files["edb"] = f.read()
+                            except FileNotFoundError:
+                                viol.append(V("C10.step", "STATE_MISMATCH", f"step {si}: {mdo} was accepted but no edb is stored", site=mdo))
+                                return
+                        else:
+                            if rep[0] != "result":
+                                viol.append(V("C10.step", "REFUSAL_MISMATCH", f"step {si}: search answered by an acknowledgement"))
+                                return
+                            try:
+                                got = fe.result_list(L, w["cfgobj"], rep[1])
+                            except Exception as e:
+                                viol.append(V("C10.search", "WRONG_RESULT", f"step {si}: result not decodable: {e!r}"))
+                                return
+                            wd = m["w"].encode()
+                            want = DB[edb].get(wd, []) if m["key"] == edb else []
+                            if m["key"] != edb:
+                                probes["search_other_key"] = 1
+                            if wd not in DB[edb]:
+                                probes["search_absent_keyword"] = 1
+                            same = (set(got) == set(want) and len(got) == len(want)) if isinstance(got, (set, frozenset)) else (list(got) == want)
+                            if not same:
+                                viol.append(V("C10.search", "WRONG_RESULT", f"step {si}: search(key{m['key']},{m['w']}) on accepted index e{edb} returned "
+                                                                            f"{len(got)} ids, expected {len(want)} (ids differ)", site="search"))
+                                return
+                    else:
+                        if mdo == "config":
+                            probes["second_config_refused"] = 1
+                        elif mdo == "upload" and st == 2:
+                            probes["second_upload_refused"] = 1
+                        elif mdo == "search":
+                            probes["search_before_ready_refused"] = 1
+                        break  # the server drops the connection with a refusal; nothing queued behind it is served
             if not run.check_write_once(si):
                 return
             if a.closed_seen:
@@ -318,6 +355,12 @@ class C10(P.Property):
             await p.close()
             await asyncio.sleep(3)
 
+    @staticmethod
+    def _accepts_after(m1, m2, st):
+        """does the reference model accept m2 right after accepting m1 in state st?"""
+        st2 = {"config": 1, "upload": 2}.get(m1["do"], st)
+        return (st2 == 0) if m2["do"] == "config" else (st2 == 1) if m2["do"] == "upload" else (st2 == 2)
+
     def simplifications(self, plan):
         k = plan["knobs"]
         for key, val in (("skew", 1.0), ("bufsize", 8192), ("scheme", "CJJ14.PiBas"), ("net", dict(lo=0.01, hi=0.01)), ("forced_gap", 0), ("decoy", False)):
@@ -327,6 +370,8 @@ class C10(P.Property):
         for i, st in enumerate(steps):
             if st["do"] == "reconnect" and (st.get("abort") or st.get("gap")):
                 yield dict(plan, steps=steps[:i] + [dict(st, abort=False, gap=0)] + steps[i + 1:])
+            if st.get("burst"):
+                yield dict(plan, steps=steps[:i] + [{k: v for k, v in st.items() if k != "burst"}] + steps[i + 1:])
 
     def finding_shape(self, plan, v):
         return plan["knobs"]["scheme"] + ":" + "-".join(s["do"][0] + str(s.get("c", s.get("e", s.get("w", "")))) for s in plan["steps"][:8])
